@@ -94,6 +94,43 @@ class PSet(object):
         self.val = set(val or ())
 
 
+class PSymSet(object):
+    """Mutable set of str with symbolic contents: `arr` is a z3 Array(String -> Bool) (membership)."""
+
+    def __init__(self, arr):
+        self.arr = arr
+
+    def copy(self):
+        return PSymSet(self.arr)
+
+    def __repr__(self):
+        return 'PSymSet(%s)' % (str(self.arr)[:60],)
+
+
+class PSymGen(object):
+    """generator expression over a symbolic set: only `set(...)` consumes it"""
+
+    def __init__(self, symset):
+        self.symset = symset
+
+
+class PMapItems(object):
+    """`d.items()` of a symbolic dict (iterated by comprehensions and contract-cut loops only)"""
+
+    def __init__(self, m):
+        self.m = m
+
+
+class SetStr(T):
+    """field/parameter type: a set of str with arbitrary (symbolic) contents"""
+
+    def fresh(self, name):
+        return PSymSet(z3.FreshConst(z3.ArraySort(z3.StringSort(), z3.BoolSort()), name))
+
+    def __repr__(self):
+        return 'SetStr'
+
+
 class PObj(object):
     """Instance of a (real) class; fields hold values."""
 
@@ -475,7 +512,7 @@ PURE_STR_METHODS = ('join', 'split', 'startswith', 'endswith', 'strip', 'rstrip'
 def has_sym(v):
     if isinstance(v, (tuple, list)):
         return any(has_sym(x) for x in v)
-    return is_sym(v) or isinstance(v, (PList, PDict, PObj, PGen, PMap))
+    return is_sym(v) or isinstance(v, (PList, PDict, PObj, PGen, PMap, PSymSet))
 
 
 def is_pow2(n):
@@ -653,6 +690,9 @@ class Engine(object):
             return True
         if isinstance(v, PMap):
             return v.size != 0
+        if isinstance(v, PSymSet):
+            x = z3.FreshConst(z3.StringSort(), 'member')
+            return z3.Exists([x], z3.Select(v.arr, x))
         if isinstance(v, Sym):
             raise Unsupported('truth of %r' % v)
         return bool(v)
@@ -684,6 +724,7 @@ class Engine(object):
         c = self.c
         frame = Frame(vars={})
         self.entry = {}
+        self.iter_log = []
         reset = c.env.get('__reset__')
         if reset is not None:
             reset()
@@ -708,6 +749,16 @@ class Engine(object):
                 self.entry[pname] = v
             if pname in c.pow2 and isinstance(v, SInt):
                 v.pow2 = z3.FreshConst(z3.IntSort(), 'pow2_' + pname)
+        # parameters of the real function the contract does not list take their default value (a call without them)
+        fa = getattr(self.fnode, 'args', None)
+        if fa is not None and not c.source:
+            pos = list(fa.posonlyargs) + list(fa.args)
+            dflt = dict(zip([a.arg for a in pos[len(pos) - len(fa.defaults):]], fa.defaults))
+            dflt.update((a.arg, d) for a, d in zip(fa.kwonlyargs, fa.kw_defaults) if d is not None)
+            for a in pos + list(fa.kwonlyargs):
+                if a.arg not in frame.vars and a.arg in dflt:
+                    frame.vars[a.arg] = self.ev(dflt[a.arg], Frame(vars={}))
+                    self.entry[a.arg] = frame.vars[a.arg]
         self.frame0 = frame
         # parameter names in postconditions / raises-conditions denote the values passed in (objects by
         # reference, so in-place mutation is visible); rebinding a parameter inside the body does not
@@ -762,7 +813,7 @@ class Engine(object):
                 c.fields[k] = v              # referenced objects keep their identity (snapshot is one level deep)
             elif isinstance(v, PDict):
                 c.fields[k] = PDict(v.val)
-            elif isinstance(v, PMap):
+            elif isinstance(v, (PMap, PSymSet)):
                 c.fields[k] = v.copy()
             else:
                 c.fields[k] = v
@@ -1313,6 +1364,17 @@ class Engine(object):
             return list(it.val.keys())
         if isinstance(it, (frozenset, set, dict, range)):
             return list(it)
+        if isinstance(it, PMapItems):
+            # model of dict iteration (assumed): a sequence of (key, value) pairs, each an item of the dict; that every key
+            # comes up exactly once is part of the model and not used by the engine
+            m = it.m
+            self.iter_log.append(m)          # ghost: which tables were iterated on this path (for 'the loop ran over ...' postconditions)
+            K = z3.Function('item_key_%d' % len(self.pc), z3.IntSort(), z3.StringSort())
+            V = z3.Function('item_value_%d' % len(self.pc), z3.IntSort(), z3.IntSort())
+            key = 'model:dict-iteration (pairs are items of the dict, every key once)'
+            self.trusted_used[key] = self.trusted_used.get(key, 0) + 1
+            return PAbsSeq('items', kinds=(2,), width=2, elem=lambda i, kind: (SStr(K(i)), SInt(V(i))),
+                           elem_facts=lambda el: [z3.Select(m.dom, el[0].t), z3.Select(m.val, el[0].t) == el[1].t])
         raise Unsupported('iteration over %r' % (it,))
 
     def seq_len(self, seq):
@@ -1381,6 +1443,13 @@ class Engine(object):
         for k, v in zip(e.keys, e.values):
             kk = self.ev(k, frame)
             if is_sym(kk):
+                if len(e.keys) == 1 and isinstance(kk, SStr):
+                    # {key: n} with a symbolic string key: a str -> int table with one entry
+                    vv = self.ev(v, frame)
+                    if isinstance(vv, (int, SInt)) and not isinstance(vv, bool):
+                        S_ = z3.StringSort()
+                        return PMap(z3.Store(z3.K(S_, z3.BoolVal(False)), kk.t, z3.BoolVal(True)),
+                                    z3.Store(z3.K(S_, z3.IntVal(0)), kk.t, Int.unwrap(vv)), z3.IntVal(1))
                 raise Unsupported('symbolic dict key in display')
             d.val[kk] = self.ev(v, frame)
         return d
@@ -1491,6 +1560,12 @@ class Engine(object):
     def ex_ListComp(self, e, frame):
         return self.comprehension(e, frame, as_list=True)
 
+    def ex_SetComp(self, e, frame):
+        return self.comprehension(e, frame, as_list='set')
+
+    def ex_DictComp(self, e, frame):
+        return self.comprehension(e, frame, as_list='dict')
+
     def ex_Call(self, e, frame):
         if self.is_logging(e):
             return None
@@ -1563,7 +1638,31 @@ class Engine(object):
         return SBool(z3.ForAll(bound, body) if nm == 'forall' else z3.Exists(bound, body))
 
     # ------------------------------------------------------------------ operators
+    def set_array(self, v):
+        """z3 membership array of a set-like value of strings, or None"""
+        if isinstance(v, PSymSet):
+            return v.arr
+        if isinstance(v, PMap):
+            return v.dom
+        if isinstance(v, PSet):
+            v = v.val
+        if isinstance(v, (set, frozenset, list, tuple)):
+            arr = z3.K(z3.StringSort(), z3.BoolVal(False))
+            for x in v:
+                if not isinstance(x, (str, SStr)):
+                    return None
+                arr = z3.Store(arr, term_of(x), z3.BoolVal(True))
+            return arr
+        return None
+
     def binop(self, op, a, b, node=None):
+        if (isinstance(a, (PSymSet, PSet)) and isinstance(b, (PSymSet, PSet))) and (
+                isinstance(a, PSymSet) or isinstance(b, PSymSet) or any(is_sym(x) for x in a.val) or any(is_sym(x) for x in b.val)):
+            ta, tb = self.set_array(a), self.set_array(b)
+            fn = {'BitAnd': z3.SetIntersect, 'BitOr': z3.SetUnion, 'Sub': z3.SetDifference}.get(type(op).__name__)
+            if ta is None or tb is None or fn is None:
+                raise Unsupported('set operator %s on %r, %r' % (type(op).__name__, a, b))
+            return PSymSet(fn(ta, tb))
         if isinstance(a, PSet) and isinstance(b, PSet):
             # sets of concrete hashable values only (symbolic members would need equality case splits)
             if any(is_sym(x) for x in a.val) or any(is_sym(x) for x in b.val):
@@ -1736,6 +1835,19 @@ class Engine(object):
         if k in ('Eq', 'NotEq') and (isinstance(a, (PObj, PExt)) or isinstance(b, (PObj, PExt))):
             r = a is b
             return r if k == 'Eq' else (not r)
+        if k in ('Eq', 'NotEq') and isinstance(a, PSet) and isinstance(b, PSet) and not any(is_sym(x) for x in a.val | b.val):
+            return (a.val == b.val) == (k == 'Eq')
+        if k not in ('In', 'NotIn') and (isinstance(a, PSymSet) or isinstance(b, PSymSet)):
+            ta, tb = self.set_array(a), self.set_array(b)
+            if ta is None or tb is None:
+                if k in ('Eq', 'NotEq'):
+                    return k == 'NotEq'
+                raise PyRaise(PExc(TypeError, tag='set comparison'))
+            if k in ('Eq', 'NotEq'):
+                return SBool(ta == tb if k == 'Eq' else ta != tb)
+            if k in ('LtE', 'GtE'):
+                return SBool(z3.IsSubset(ta, tb) if k == 'LtE' else z3.IsSubset(tb, ta))
+            raise Unsupported('set comparison %s' % k)
         if k in ('Eq', 'NotEq') and (isinstance(a, SChar) or isinstance(b, SChar)):
             def cp(x):
                 if isinstance(x, SChar):
@@ -1855,6 +1967,10 @@ class Engine(object):
             return self.call(container.fields['__contains__'], [x], {}, None)
         if isinstance(container, PMap):
             return SBool(z3.Select(container.dom, term_of(x)))
+        if isinstance(container, PSymSet):
+            if not isinstance(x, (str, SStr)):
+                raise Unsupported('membership of %r in a set of str' % (x,))
+            return SBool(z3.Select(container.arr, term_of(x)))
         if isinstance(container, PList) and isinstance(container.val, list):
             container = container.val
         if isinstance(container, PDict):
@@ -2132,7 +2248,7 @@ class Engine(object):
             ex = PExc(AttributeError, tag=name)
             ex.unmodelled = True
             raise PyRaise(ex)
-        if isinstance(obj, (PList, PDict, PSet, SStr, SSeq, SInt, PGen, SEnc)):
+        if isinstance(obj, (PList, PDict, PSet, SStr, SSeq, SInt, PGen, SEnc, PSymSet, PMap)):
             return PBound(obj, name)
         if isinstance(obj, PExc):
             if name == 'args':
@@ -2184,6 +2300,8 @@ class Engine(object):
             raise Unsupported('nested comprehension')
         g = e.generators[0]
         it = self.ev(g.iter, frame)
+        if isinstance(it, (PSymSet, PMap, PMapItems)):
+            return self.symset_comprehension(e, g, it, frame, as_list)
         seq = self.iter_contents(it)
         if isinstance(seq, list):
             out = []
@@ -2195,10 +2313,74 @@ class Engine(object):
                     if not self.branch(self.ev(cond, f)):
                         ok = False
                         break
-                if ok:
+                if ok and as_list == 'dict':
+                    out.append((self.ev(e.key, f), self.ev(e.value, f)))
+                elif ok:
                     out.append(self.ev(e.elt, f))
+            if as_list == 'dict':
+                if any(is_sym(k) for k, _ in out):
+                    raise Unsupported('dict comprehension with symbolic keys')
+                return PDict(dict(out))
+            if as_list == 'set':
+                if any(is_sym(x) for x in out):
+                    arr = self.set_array(out)
+                    if arr is None:
+                        raise Unsupported('set comprehension with symbolic non-string members')
+                    return PSymSet(arr)
+                return PSet(out)
             return PList(out) if as_list else PGen(out)
+        if as_list in ('set', 'dict'):
+            raise Unsupported('set/dict comprehension over %r' % (seq,))
         return self.symbolic_map(e, g, seq, frame, as_list)
+
+    def symset_comprehension(self, e, g, it, frame, kind):
+        """Comprehension over a symbolic set / dict (keys) / dict items.  Conditions and element are evaluated once for a
+        bound variable v (no branching allowed inside).  Result:
+          filter   `x for x in X if c(x)`            -> the set {v | X[v] and c(v)}            (exact)
+          dict     `{k: val for k, val in M.items() if c(k)}` -> domain as above, values of M  (exact; size left unconstrained >= 0)
+          image    `f(x) for x in X if c(x)`         -> a fresh set R with  X[v] and c(v) => R[f(v)]   (lower bound only:
+                                                        enough for 'is contained' postconditions; listed as model)"""
+        v = z3.FreshConst(z3.StringSort(), 'bv')
+        f = Frame(parent=frame)
+        if isinstance(it, PMapItems):
+            m = it.m
+            member = z3.Select(m.dom, v)
+            self.assign(g.target, (SStr(v), SInt(z3.Select(m.val, v))), f)
+        else:
+            m = None
+            member = z3.Select(self.set_array(it), v)
+            self.assign(g.target, SStr(v), f)
+        pos = self.pos
+        conds = [member]
+        for cond in g.ifs:
+            t = self.truth(self.ev(cond, f))
+            conds.append(z3.BoolVal(t) if isinstance(t, bool) else t)
+        if isinstance(e, ast.DictComp):
+            kv, vv = self.ev(e.key, f), self.ev(e.value, f)
+            if self.pos != pos:
+                raise Unsupported('branching inside a comprehension over a symbolic set')
+            if not (isinstance(kv, SStr) and z3.eq(kv.t, v)):
+                raise Unsupported('dict comprehension over a symbolic dict that renames keys')
+            dom = z3.Lambda([v], z3.And(*conds))
+            size = z3.FreshConst(z3.IntSort(), 'size')
+            self.assume(size >= 0)
+            return PMap(dom, z3.Lambda([v], Int.unwrap(vv)), size)
+        ev = self.ev(e.elt, f)
+        if self.pos != pos:
+            raise Unsupported('branching inside a comprehension over a symbolic set')
+        if not isinstance(ev, (str, SStr)):
+            raise Unsupported('comprehension element %r over a symbolic set' % (ev,))
+        if isinstance(ev, SStr) and z3.eq(ev.t, v):
+            res = PSymSet(z3.Lambda([v], z3.And(*conds)))
+        else:
+            arr = z3.FreshConst(z3.ArraySort(z3.StringSort(), z3.BoolSort()), 'image')
+            self.assume(z3.ForAll([v], z3.Implies(z3.And(*conds), z3.Select(arr, term_of(ev)))))
+            key = 'model:set-image (members known from below only)'
+            self.trusted_used[key] = self.trusted_used.get(key, 0) + 1
+            res = PSymSet(arr)
+        if kind == 'set':
+            return res
+        return PSymGen(res)             # `set(<generator>)` picks this up; nothing else can consume it
 
     def symbolic_map(self, e, g, seq, frame, as_list):
         """(elt for x in seq) over a symbolic sequence.
@@ -2399,6 +2581,38 @@ class Engine(object):
             return self.list_method(recv, name, args, node)
         if isinstance(recv, PDict):
             return self.dict_method(recv, name, args, node)
+        if isinstance(recv, PSymSet):
+            if name == 'add' and len(args) == 1 and isinstance(args[0], (str, SStr)):
+                recv.arr = z3.Store(recv.arr, term_of(args[0]), z3.BoolVal(True))
+                return None
+            if name == 'discard' and len(args) == 1 and isinstance(args[0], (str, SStr)):
+                recv.arr = z3.Store(recv.arr, term_of(args[0]), z3.BoolVal(False))
+                return None
+            if name == 'copy' and not args:
+                return recv.copy()
+            raise Unsupported('set.%s on a symbolic set' % name)
+        if isinstance(recv, PMap):
+            if name == 'get' and 1 <= len(args) <= 2 and isinstance(args[0], (str, SStr)):
+                if len(args) == 1 or args[1] is None:
+                    raise Unsupported('dict.get with a None default on a symbolic dict')
+                kt = term_of(args[0])
+                return SInt(z3.If(z3.Select(recv.dom, kt), z3.Select(recv.val, kt), Int.unwrap(args[1])))
+            if name == 'items' and not args:
+                return PMapItems(recv)
+            if name == 'keys' and not args:
+                return PSymSet(recv.dom)
+            if name == 'copy' and not args:
+                return recv.copy()
+            if name == 'update' and len(args) == 1 and isinstance(args[0], PMap) and not kwargs:
+                o = args[0]
+                k_ = z3.FreshConst(z3.StringSort(), 'k')
+                recv.val = z3.Lambda([k_], z3.If(z3.Select(o.dom, k_), z3.Select(o.val, k_), z3.Select(recv.val, k_)))
+                recv.dom = z3.SetUnion(recv.dom, o.dom)
+                size = z3.FreshConst(z3.IntSort(), 'size')
+                self.assume(z3.And(size >= recv.size, size >= o.size, size <= recv.size + o.size))
+                recv.size = size
+                return None
+            raise Unsupported('dict.%s on a symbolic dict' % name)
         if isinstance(recv, PObj):
             a = inspect.getattr_static(recv.cls, name)
             q = '%s:%s' % (a.__module__, a.__qualname__)
@@ -2668,8 +2882,26 @@ class Engine(object):
             return PDict()
         if fn is set and not args:
             return PSet()
+        if fn is set and len(args) == 1 and not kwargs and isinstance(args[0], PSymGen):
+            return args[0].symset.copy()
+        if fn is set and len(args) == 1 and not kwargs and isinstance(args[0], (PSymSet, PMap)):
+            return PSymSet(self.set_array(args[0]))
+        if fn is set and len(args) == 1 and not kwargs and isinstance(args[0], PSet):
+            return PSet(args[0].val)
         if isinstance(fn, type) and issubclass(fn, BaseException):
             return PExc(fn, args)
+        if (isinstance(fn, type) and type(fn) is type and fn.__module__.split('.')[0] == self.module.__name__.split('.')[0]
+                and not any('__new__' in vars(k) for k in fn.__mro__ if k is not object)
+                and not any(issubclass(fn, b) for b in (tuple, list, dict, set, str, int))):
+            # instantiation of a plain class of the package under verification: a fresh object owned by the caller,
+            # initialised by the class's __init__ (its contract if it has one, else its body inlined)
+            obj = PObj(fn, name='new_%s' % fn.__name__)
+            init = inspect.getattr_static(fn, '__init__')
+            if isinstance(init, types.FunctionType):
+                self.call_method(obj, '__init__', list(args), kwargs, node)
+            elif args or kwargs:
+                raise PyRaise(PExc(TypeError, tag='object() takes no arguments'))
+            return obj
         if isinstance(fn, type) and issubclass(fn, tuple) and hasattr(fn, '_fields'):
             if kwargs:
                 args = list(args) + [kwargs[f] for f in fn._fields[len(args):]]
